@@ -30,14 +30,14 @@ func init() { register("c01", cmdC01) }
 
 // ---------- the two generator instances ----------
 
-var c01FgOn, fgOff *value.FunctionGenerator
+var c01FgOn, c01FgOff *value.FunctionGenerator
 var c01Statics map[string]bool
 
 func c01Setup() {
 	log.SetOutput(io.Discard) // the top-level recover of generated functions logs the panic and its stack
 	c01FgOn = value.New()
-	fgOff = value.New()
-	fgOff.SetOptimizer(nil)
+	c01FgOff = value.New()
+	c01FgOff.SetOptimizer(nil)
 	c01Statics = map[string]bool{}
 	for _, f := range c01FgOn.VerifStaticFunctions() {
 		c01Statics[f.Name] = true
@@ -132,8 +132,8 @@ func c01ParseOff(text string, names []string) (term string, parseErr error, unsu
 			parseErr = fmt.Errorf("panic in the parser: %v", r)
 		}
 	}()
-	idents := fgOff.Identifier().AddArgs(names, nil)
-	ast, err := fgOff.CreateAst(text, idents)
+	idents := c01FgOff.Identifier().AddArgs(names, nil)
+	ast, err := c01FgOff.CreateAst(text, idents)
 	if err != nil {
 		return "", err, ""
 	}
@@ -392,7 +392,7 @@ func (r *c01Run) runCase(p *pgProgram, id int) {
 			c01KeepMessages = true
 		}
 	})
-	off := c01RunImpl(fgOff, text, p.ArgNames, p.Tuples)
+	off := c01RunImpl(c01FgOff, text, p.ArgNames, p.Tuples)
 	on := c01RunImpl(c01FgOn, text, p.ArgNames, p.Tuples)
 	sum.Evaluations++
 
@@ -549,6 +549,17 @@ func c01Corpus() []*pgProgram {
 		mk(pgNLet("p", pgNOp("*", x(), pgNInt(2)), pgNCall("closure", pgNCall("closure", pgNCall("closure",
 			pgNClo([]string{"a"}, pgNClo([]string{"b"}, pgNClo([]string{"c"}, pgNOp("+", pgNOp("+", pgNOp("+", pgNId("a"), pgNId("b")), pgNOp("+", pgNId("c"), pgNId("p"))), x())))),
 			pgNInt(1)), pgNLet("q", pgNOp("+", x(), pgNInt(1)), pgNId("q"))), pgNInt(3))), ints),
+		// an inner closure that reads the captured names in another order than the enclosing closure's body:
+		// let f = p -> if y > p then (q -> x*q - y) else (q -> q); f(2)(3)      x=5, y=7 -> 8
+		{T: pgNLet("f", pgNClo([]string{"p"}, pgNIf(pgNOp(">", pgNId("y"), pgNId("p")),
+			pgNClo([]string{"q"}, pgNOp("-", pgNOp("*", x(), pgNId("q")), pgNId("y"))), pgNClo([]string{"q"}, pgNId("q")))),
+			pgNCall("closure", pgNCall("closure", pgNId("f"), pgNInt(2)), pgNInt(3))),
+			ArgNames: []string{"x", "y"}, Tuples: [][]*Tree{c01Tup(c01Ti(5), c01Ti(7)), c01Tup(c01Ti(1), c01Ti(9)), c01Tup(c01Ti(-2), c01Ti(4))}, Stream: "corpus"},
+		// the same three levels deep
+		{T: pgNCall("closure", pgNCall("closure", pgNCall("closure", pgNClo([]string{"r"}, pgNClo([]string{"p"}, pgNIf(pgNOp(">", pgNId("y"), pgNId("p")),
+			pgNClo([]string{"q"}, pgNOp("-", pgNOp("*", x(), pgNId("q")), pgNId("y"))), pgNClo([]string{"q"}, pgNId("q"))))),
+			pgNInt(0)), pgNInt(2)), pgNInt(3)),
+			ArgNames: []string{"x", "y"}, Tuples: [][]*Tree{c01Tup(c01Ti(5), c01Ti(7)), c01Tup(c01Ti(1), c01Ti(9)), c01Tup(c01Ti(-2), c01Ti(4))}, Stream: "corpus"},
 		// recursion
 		mk(pgNFunc("fac", []string{"n"}, pgNIf(pgNOp("<=", pgNId("n"), pgNInt(0)), pgNInt(1), pgNOp("*", pgNId("n"), pgNCall("closure", pgNId("fac"), pgNOp("-", pgNId("n"), pgNInt(1))))),
 			pgNCall("closure", pgNId("fac"), pgNOp("%", x(), pgNInt(6)))), ints),
